@@ -88,9 +88,9 @@ template <class Ten, class T> struct IL<Ten, T, shape_<3, 3>> { enum { available
 template <class Ten, class T> struct IL<Ten, T, shape_<2, 2, 3>> { enum { available = 1 }; static Ten make(const T *v) { return Ten{{{v[0], v[1], v[2]}, {v[3], v[4], v[5]}}, {{v[6], v[7], v[8]}, {v[9], v[10], v[11]}}}; } };
 
 // squeeze(): available as the rank-1 handle when the owning source has exactly one non-unit extent
-template <class T, class S1, class Map0> struct Squeeze { enum { available = 0 }; template <class Src> static Map0 make(Src &s) { return Map0(flatten(s)); } };
-template <class T, size_t N> struct Squeeze<T, shape_<1, N>, TensorMap<T, N>> { enum { available = 1 }; template <class Src> static TensorMap<T, N> make(Src &s) { return squeeze(s); } };
-template <class T, size_t N> struct Squeeze<T, shape_<N, 1>, TensorMap<T, N>> { enum { available = 1 }; template <class Src> static TensorMap<T, N> make(Src &s) { return squeeze(s); } };
+template <class T, class S1, class Map0> struct Squeeze { enum { available = 0 }; template <class Src> static Map0 make(Src &s) { return Map0(flatten(s)); } template <class Src> static Map0 make_from_map(Src &s) { return Map0(s.data()); } };
+template <class T, size_t N> struct Squeeze<T, shape_<1, N>, TensorMap<T, N>> { enum { available = 1 }; template <class Src> static TensorMap<T, N> make(Src &s) { return squeeze(s); } template <class Src> static TensorMap<T, N> make_from_map(Src &s) { return squeeze(s); } };
+template <class T, size_t N> struct Squeeze<T, shape_<N, 1>, TensorMap<T, N>> { enum { available = 1 }; template <class Src> static TensorMap<T, N> make(Src &s) { return squeeze(s); } template <class Src> static TensorMap<T, N> make_from_map(Src &s) { return squeeze(s); } };
 
 template <class T, class S0, class S1, class S2> struct MU : UniverseBase {
     static constexpr int SZ = (int)size_of<S0>::value;
@@ -109,7 +109,9 @@ template <class T, class S0, class S1, class S2> struct MU : UniverseBase {
     const char *name() const override { return nm.c_str(); }
 
     void wrap() {
-        if (storage == 0) { h0 = new (hs0) Map0(buf); h1 = new (hs1) Map1(buf); h2 = new (hs2) Map2(buf); }
+        if (storage == 0) { h1 = new (hs1) Map1(buf); h2 = new (hs2) Map2(buf);
+            // squeeze() also accepts a map: when available the rank-1 handle of a raw buffer is squeeze(map)
+            h0 = new (hs0) Map0(Squeeze<T, S1, Map0>::make_from_map(*h1)); }
         else { h0 = new (hs0) Map0(Squeeze<T, S1, Map0>::make(*src)); h1 = new (hs1) Map1(*src); h2 = new (hs2) Map2(reshape_to(*src, S2{})); }
     }
     template <size_t... D> static TensorMap<T, D...> reshape_to(Ten1 &s, shape_<D...>) { return reshape<D...>(s); }
@@ -155,7 +157,7 @@ template <class T, class S0, class S1, class S2> struct MU : UniverseBase {
             switch (kind) {
             case K_SCALAR: switch (op) { case 0: d.fill(c); break; case 1: d += c; break; case 2: d -= c; break; case 3: d *= c; break; default: d /= c; } break;   // map = scalar does not compile: fill() is the scalar assignment
             case K_TENSOR: do_assign(op, d, X); break;
-            case K_EXPR: if (op == 4) do_assign(op, d, X * (T)2); else do_assign(op, d, X * (T)2 + Y); break;
+            case K_EXPR: if (op == 4) do_assign(op, d, X * (T)2); else switch (rk % 4) { case 0: do_assign(op, d, X * (T)2 + Y); break; case 1: do_assign(op, d, X - Y); break; case 2: do_assign(op, d, X * Y); break; default: do_assign(op, d, (X + Y) * (T)2 - X); } break;
             case K_SELF_EXPR: switch (rk % 3) { case 0: d = d * (T)2 - X; break; case 1: d = X + d; break; default: d += d; } break;
             case K_METHOD: switch (mv) { case 0: d.fill(c); break; case 1: d.zeros(); break; case 2: d.ones(); break; case 3: d.iota(c); break; default: d.reverse(); } break;
             case K_ELEM: { auto &e = elem_at(d, ix, rank_t<R>{}); switch (op) { case 0: e = c; break; case 1: e += c; break; case 2: e -= c; break; case 3: e *= c; break; default: e /= c; } } break;
@@ -251,7 +253,7 @@ template <class T, class S0, class S1, class S2> struct MU : UniverseBase {
         if (storage == 1 && memcmp(src->data(), shadow.data(), sizeof(T) * SZ) != 0) { v.set(si, "stale-handle/source", opname, "%s: the owning source does not observe the bytes written through a map", opname); return; }
         long off = g_arena.check_poison(0);
         if (off >= 0) { char k[96]; snprintf(k, sizeof k, "poison/%s", KINDNAME[kind]); v.set(si, k, opname, "%s: %s overwrote byte %ld outside the wrapped extent", opname, info.desc, off); return; }
-        if (cnt && storage == 1 && Squeeze<T, S1, Map0>::available) cnt->bump("probe/squeeze() handle live");
+        if (cnt && Squeeze<T, S1, Map0>::available) cnt->bump(storage == 1 ? "probe/squeeze(tensor) handle live" : "probe/squeeze(map) handle live");
         if (cnt) { cnt->bump("probe/cross-handle reads", 3); if (last_writer >= 0 && last_writer != 3) cnt->bump("probe/write through one handle observed through the others"); }
     }
 };
